@@ -12,6 +12,7 @@ import (
 	"strings"
 	"time"
 
+	codec "github.com/uhppoted/uhppote-core/encoding/UTO311-L0x"
 	"github.com/uhppoted/uhppote-core/messages"
 	"github.com/uhppoted/uhppote-core/types"
 )
@@ -164,6 +165,7 @@ func c05unmarshal(s *Sink, name string, t reflect.Type, fs []LField, buf []byte,
 		}
 		lastDecoded[name] = p
 	}
+	entryProbe(s, name, t, fs, buf, cl, vals)
 	s.Add(fmt.Sprintf("CM (CMsgUnmarshal %s %s %s)", coqString(name), coqBytes(buf), coqOutcome(cl, vals)),
 		map[string]any{"op": "msg-unmarshal", "type": name, "tz": zone, "buf_hex": hexs(buf), "outcome": cl, "msg": msg, "values": vals}, class,
 		len(buf) == 64)
@@ -475,4 +477,113 @@ func leafStrings(sv reflect.Value, fs []LField) []string {
 		}
 	}
 	return out
+}
+
+// the codec's other entry points against Unmarshal (Model/CodecEntry.v defines them through `unmarshal`): UnmarshalAs and
+// UnmarshalArrayElement give Unmarshal's outcome and values for the same bytes; UnmarshalArray over the last few datagrams
+// of this type gives exactly their individual values in order when all decode, and fails when one of them fails
+type entryCase struct {
+	buf  []byte
+	cl   string
+	vals string
+}
+
+var entryWindow = map[string][]entryCase{}
+
+func entryProbe(s *Sink, name string, t reflect.Type, fs []LField, buf []byte, cl, vals string) {
+	if cl == "panic" {
+		return
+	}
+	one := func(what string, f func() (any, error)) {
+		var v any
+		var err error
+		c := "ok"
+		func() {
+			defer func() {
+				if rec := recover(); rec != nil {
+					c = "panic"
+				}
+			}()
+			v, err = f()
+		}()
+		if c == "ok" && err != nil {
+			c = "err"
+		}
+		got := "[]"
+		if c == "ok" {
+			rv := reflect.ValueOf(v)
+			if rv.Kind() == reflect.Ptr {
+				rv = rv.Elem()
+			}
+			if rv.Type() != t {
+				c = "wrong-type " + rv.Type().String()
+			} else {
+				cp := reflect.New(t).Elem()
+				cp.Set(rv)
+				got = valsOf(cp, fs, true)
+			}
+		}
+		if c != cl || got != vals {
+			s.Fail(map[string]any{"op": "entry-" + what, "type": name, "buf_hex": hexs(buf), "unmarshal": cl, "unmarshal_values": vals, what: c, what + "_values": got},
+				what+" disagrees with Unmarshal on the same bytes")
+		}
+	}
+	one("UnmarshalAs", func() (any, error) { return codec.UnmarshalAs(append([]byte{}, buf...), reflect.New(t).Interface()) })
+	one("UnmarshalAsValue", func() (any, error) { return codec.UnmarshalAs(append([]byte{}, buf...), reflect.New(t).Elem().Interface()) })
+	one("UnmarshalArrayElement", func() (any, error) {
+		return codec.UnmarshalArrayElement(append([]byte{}, buf...), reflect.New(reflect.SliceOf(t)).Interface())
+	})
+
+	w := append(entryWindow[name], entryCase{append([]byte{}, buf...), cl, vals})
+	if len(w) > 4 {
+		w = w[len(w)-4:]
+	}
+	entryWindow[name] = w
+	for k := 0; k <= len(w); k += len(w) { // the empty list and the window
+		sub := w[:k]
+		var bufs [][]byte
+		want := "ok"
+		for _, e := range sub {
+			bufs = append(bufs, append([]byte{}, e.buf...))
+			if e.cl != "ok" {
+				want = "err"
+			}
+		}
+		arr := reflect.New(reflect.SliceOf(t))
+		// a destination that already holds elements: the result replaces them
+		arr.Elem().Set(reflect.MakeSlice(reflect.SliceOf(t), 2, 3))
+		c := "ok"
+		func() {
+			defer func() {
+				if rec := recover(); rec != nil {
+					c = "panic"
+				}
+			}()
+			if err := codec.UnmarshalArray(bufs, arr.Interface()); err != nil {
+				c = "err"
+			}
+		}()
+		var got, exp []string
+		if c == "ok" {
+			for i := 0; i < arr.Elem().Len(); i++ {
+				got = append(got, valsOf(arr.Elem().Index(i), fs, true))
+			}
+		}
+		if want == "ok" {
+			for _, e := range sub {
+				exp = append(exp, e.vals)
+			}
+		}
+		if c != want || strings.Join(got, ";") != strings.Join(exp, ";") {
+			var hx []string
+			for _, e := range sub {
+				hx = append(hx, hexs(e.buf))
+			}
+			s.Fail(map[string]any{"op": "entry-UnmarshalArray", "type": name, "bufs_hex": hx, "want": want, "want_values": exp, "got": c, "got_values": got},
+				"UnmarshalArray is not the element-wise Unmarshal of its datagrams, in order, failing iff one of them fails")
+		}
+		if len(w) == 0 {
+			break
+		}
+	}
 }
